@@ -149,7 +149,7 @@ def _shapes_c18_1(tier):
                      "session validity flags symbolic",
                      "threading.Lock replaced by a recording lock; shared "
                      "attributes behind access hooks"],
-            max_paths=60000, timeout=(400, 1500))
+            max_paths=60000, timeout=(400, 1500), also=("C13",))
 def c18_1(I, shape):
     """SessionCache refines the sequential specification on every history,
     never exceeds its size bound, raises only KeyError, and keeps the lock
